@@ -316,3 +316,303 @@ Proof.
   - rewrite !app_length. pose proof (concat_enc_length es). lia.
   - exact Hend.
 Qed.
+
+(* ====================================================================== what the reader sees of a stored entry *)
+Lemma land_255 a : Z.land a 255 = a mod 256.
+Proof. change 255 with (Z.ones 8). rewrite Z.land_ones by lia. reflexivity. Qed.
+
+Lemma flags_of a : Z.shiftr (Z.land a 65280) 8 = (a / 256) mod 256.
+Proof.
+  rewrite Z.shiftr_land. change (Z.shiftr 65280 8) with 255. rewrite land_255.
+  rewrite Z.shiftr_div_pow2 by lia. reflexivity.
+Qed.
+
+Theorem entry_fields off e :
+  let r := rentry_of off e in
+  key_bytes r = se_key e /\ e_data_inline r = se_body e /\
+  e_typ r = se_type e mod 256 /\ e_flags r = (se_type e / 256) mod 256.
+Proof.
+  cbn zeta. unfold key_bytes, e_data_inline, e_typ, e_flags, rentry_of. cbn [r_raw r_hdr kh_doff kh_type].
+  pose proof (zlen_nonneg (se_key e)) as Hk.
+  change K.key_terminator with 1. change K.type_mask with 255. change K.flags_mask with 65280. change K.flags_shift with 8.
+  repeat split.
+  - unfold py_prefix. destruct (Z.ltb_spec (zlen (se_key e) + 1 - 1) 0); [lia|].
+    replace (zlen (se_key e) + 1 - 1) with (zlen (se_key e)) by lia.
+    apply firstn_app_len. symmetry. apply to_nat_zlen.
+  - replace (se_key e ++ [0] ++ se_body e) with ((se_key e ++ [0]) ++ se_body e) by (rewrite <- app_assoc; reflexivity).
+    apply skipn_app_len. rewrite app_length. unfold zlen. cbn [length]. lia.
+  - apply land_255.
+  - apply flags_of.
+Qed.
+
+(* ====================================================================== the walk terminates on arbitrary bytes *)
+Lemma le_uint_nonneg l : bytes_ok l -> 0 <= le_uint l.
+Proof. induction 1 as [|b l Hb _ IH]; cbn [le_uint]; lia. Qed.
+
+Lemma bytes_ok_firstn n l : bytes_ok l -> bytes_ok (firstn n l).
+Proof. intros H. rewrite <- (firstn_skipn n l) in H. apply Forall_app in H. tauto. Qed.
+
+Lemma bytes_ok_skipn n l : bytes_ok l -> bytes_ok (skipn n l).
+Proof. intros H. rewrite <- (firstn_skipn n l) in H. apply Forall_app in H. tauto. Qed.
+
+Lemma parse_fields_some ws : forall buf vs,
+  Forall (fun w => 0 <= w) ws -> parse_fields ws buf = Some vs ->
+  fold_right Z.add 0 ws <= zlen buf /\ (bytes_ok buf -> Forall (fun v => 0 <= v) vs).
+Proof.
+  induction ws as [|w ws IH]; intros buf vs Hw Hp.
+  - cbn in Hp. injection Hp as <-. split; [apply zlen_nonneg|constructor].
+  - inversion Hw as [|? ? Hw0 Hws]; subst. cbn [parse_fields] in Hp.
+    destruct (Z.ltb_spec (zlen (firstn (Z.to_nat w) buf)) w) as [|Hlen]; [discriminate|].
+    destruct (parse_fields ws (skipn (Z.to_nat w) buf)) as [vs'|] eqn:Hrest; [|discriminate].
+    injection Hp as <-. destruct (IH _ _ Hws Hrest) as [Hsum Hnn].
+    unfold zlen in *. rewrite firstn_length in Hlen. rewrite skipn_length in Hsum. cbn [fold_right].
+    split; [lia|]. intros Hb. constructor.
+    + apply le_uint_nonneg, bytes_ok_firstn, Hb.
+    + apply Hnn, bytes_ok_skipn, Hb.
+Qed.
+
+Lemma parse_khdr_some buf h :
+  parse_khdr buf = Some h -> 21 <= zlen buf /\ (bytes_ok buf -> 0 <= kh_size h).
+Proof.
+  unfold parse_khdr. destruct (parse_fields kent_widths buf) as [vs|] eqn:Hp; [|discriminate].
+  assert (Hw : Forall (fun w => 0 <= w) kent_widths) by (rewrite kent_widths_eq; unfold W_kent; repeat constructor; lia).
+  destruct (parse_fields_some _ _ _ Hw Hp) as [Hsum Hnn].
+  rewrite kent_widths_eq in Hsum. cbn in Hsum.
+  destruct vs as [|t [|s [|pi [|po [|ck [|ins [|d [|]]]]]]]]; try discriminate.
+  intros [= <-]. split; [exact Hsum|]. intros Hb. specialize (Hnn Hb).
+  inversion Hnn as [|? ? _ Hnn']; subst. inversion Hnn'; subst. assumption.
+Qed.
+
+Theorem walk_progress fuel : forall raw size eoff,
+  bytes_ok raw -> 0 <= eoff -> (length raw - Z.to_nat eoff < fuel)%nat ->
+  walk fuel raw size eoff <> Fuel.
+Proof.
+  induction fuel as [|fuel IH]; intros raw size eoff Hb He Hf; [lia|].
+  cbn [walk]. destruct (eoff <? size); [|discriminate].
+  destruct (parse_khdr (skipn (Z.to_nat eoff) raw)) as [h|] eqn:Hp; [|discriminate].
+  destruct (parse_khdr_some _ _ Hp) as [Hlen Hnn].
+  specialize (Hnn (bytes_ok_skipn _ _ Hb)).
+  destruct (Z.eqb_spec (kh_size h) 0) as [|Hnz]; [discriminate|].
+  unfold zlen in Hlen. rewrite skipn_length in Hlen.
+  specialize (IH raw size (eoff + kh_size h) Hb ltac:(lia) ltac:(lia)).
+  destruct (walk fuel raw size (eoff + kh_size h)); cbn [bind]; congruence.
+Qed.
+
+Corollary parse_ktab_progress raw size : bytes_ok raw -> parse_ktab raw size <> Fuel.
+Proof.
+  intros Hb. unfold parse_ktab.
+  destruct (parse_fields ktab_widths raw) as [[|sig [|idx [|seq [|ck [|]]]]]|]; try discriminate.
+  destruct (negb _); [discriminate|].
+  pose proof (walk_progress (S (length raw)) raw size ktab_hsize Hb ltac:(change ktab_hsize with 10; lia) ltac:(lia)) as Hw.
+  destruct (walk _ raw size ktab_hsize); cbn [bind]; congruence.
+Qed.
+
+(* ====================================================================== linking: generic list facts *)
+Definition kidsf (es : list lentry) (pid : ident) : list lentry := filter (fun e => id_eqb (l_par e) pid) es.
+
+Lemma id_eqb_eq a b : id_eqb a b = true <-> a = b.
+Proof.
+  destruct a as [a1 a2], b as [b1 b2]. unfold id_eqb. cbn [fst snd]. rewrite andb_true_iff, !Z.eqb_eq.
+  split; [intros [-> ->]; reflexivity|intros [= -> ->]; split; reflexivity].
+Qed.
+
+Lemma id_eqb_refl a : id_eqb a a = true.
+Proof. now apply id_eqb_eq. Qed.
+
+Lemma id_eqb_neq a b : a <> b -> id_eqb a b = false.
+Proof. intros H. destruct (id_eqb a b) eqn:E; [apply id_eqb_eq in E; contradiction|reflexivity]. Qed.
+
+Lemma list_eqb_eq a : forall b, list_eqb a b = true <-> a = b.
+Proof.
+  unfold list_eqb. induction a as [|x a IH]; intros [|y b].
+  - cbn. split; reflexivity.
+  - cbn. split; discriminate.
+  - cbn. split; discriminate.
+  - specialize (IH b). cbn [length combine forallb fst snd]. cbn [Nat.eqb].
+    rewrite andb_true_iff in IH. rewrite !andb_true_iff, Z.eqb_eq.
+    split.
+    + intros (Hl & -> & Hf). f_equal. apply IH. split; assumption.
+    + intros [= -> ->]. destruct IH as [_ IH]. destruct (IH eq_refl) as [Hl Hf]. repeat split; assumption.
+Qed.
+
+Lemma list_eqb_neq a b : a <> b -> list_eqb a b = false.
+Proof. intros H. destruct (list_eqb a b) eqn:E; [apply list_eqb_eq in E; contradiction|reflexivity]. Qed.
+
+Lemma dict_set_fresh {A} (d : list (list Z * A)) k v :
+  ~ In k (map fst d) -> dict_set d k v = d ++ [(k, v)].
+Proof.
+  induction d as [|[k' v'] d IH]; intros Hn; [reflexivity|].
+  cbn [dict_set]. cbn [map fst In] in Hn.
+  rewrite list_eqb_neq by tauto. cbn [app]. f_equal. apply IH. tauto.
+Qed.
+
+Lemma NoDup_app_disjoint {A} (l l' : list A) x : NoDup (l ++ l') -> In x l -> In x l' -> False.
+Proof.
+  induction l as [|a l IH]; intros Hnd Hin Hin'; [contradiction|].
+  cbn in Hnd. inversion Hnd as [|? ? Hna Hnd']; subst.
+  destruct Hin as [->|Hin]; [apply Hna, in_or_app; now right|eauto].
+Qed.
+
+Lemma NoDup_app_l {A} (l l' : list A) : NoDup (l ++ l') -> NoDup l.
+Proof.
+  induction l as [|a l IH]; intros H; [constructor|].
+  cbn in H. inversion H as [|? ? Hn Hd]; subst. constructor; [|auto].
+  intros Hin. apply Hn, in_or_app. now left.
+Qed.
+
+Lemma NoDup_app_r {A} (l l' : list A) : NoDup (l ++ l') -> NoDup l'.
+Proof. induction l as [|a l IH]; intros H; [exact H|]. cbn in H. inversion H; auto. Qed.
+
+Lemma dict_of_nodup_gen es : forall d,
+  NoDup (map fst d ++ map l_key es) ->
+  fold_left (fun d e => dict_set d (l_key e) e) es d = d ++ map (fun e => (l_key e, e)) es.
+Proof.
+  induction es as [|e es IH]; intros d Hnd; [cbn; now rewrite app_nil_r|].
+  cbn [fold_left map]. cbn [map] in Hnd.
+  rewrite dict_set_fresh.
+  - rewrite IH.
+    + rewrite <- app_assoc. reflexivity.
+    + rewrite map_app. cbn [map fst]. rewrite <- app_assoc. exact Hnd.
+  - intros Hin. apply NoDup_remove_2 in Hnd. apply Hnd, in_or_app. now left.
+Qed.
+
+Lemma dict_of_nodup es : NoDup (map l_key es) -> dict_of es = map (fun e => (l_key e, e)) es.
+Proof. intros H. unfold dict_of. now rewrite dict_of_nodup_gen. Qed.
+
+Lemma mapM_perm {A B} (g : A -> res B) l1 l2 :
+  Permutation l1 l2 -> forall r1, mapM g l1 = Ok r1 -> exists r2, mapM g l2 = Ok r2 /\ Permutation r1 r2.
+Proof.
+  induction 1 as [|x l l' _ IH|x y l|l l' l'' _ IH1 _ IH2]; intros r1 Hr.
+  - cbn in Hr. injection Hr as <-. exists []. split; [reflexivity|constructor].
+  - cbn [mapM] in *. destruct (g x) as [b| |]; cbn [bind] in *; try discriminate.
+    destruct (mapM g l) as [r| |] eqn:Hl; cbn [bind] in *; try discriminate. injection Hr as <-.
+    destruct (IH r eq_refl) as (r2 & -> & Hp). exists (b :: r2). split; [reflexivity|now constructor].
+  - cbn [mapM] in *. destruct (g y) as [by_| |]; cbn [bind] in *; try discriminate.
+    destruct (g x) as [bx| |]; cbn [bind] in *; try discriminate.
+    destruct (mapM g l) as [r| |]; cbn [bind] in *; try discriminate. injection Hr as <-.
+    exists (bx :: by_ :: r). split; [reflexivity|apply perm_swap].
+  - destruct (IH1 _ Hr) as (r2 & H2 & P2). destruct (IH2 _ H2) as (r3 & H3 & P3).
+    exists r3. split; [exact H3|eapply perm_trans; eassumption].
+Qed.
+
+Lemma Permutation_filter {A} (f : A -> bool) l l' : Permutation l l' -> Permutation (filter f l) (filter f l').
+Proof.
+  induction 1 as [|x l l' _ IH|x y l|l l' l'' _ IH1 _ IH2]; cbn [filter].
+  - constructor.
+  - destruct (f x); [now constructor|assumption].
+  - destruct (f x), (f y); try apply Permutation_refl. apply perm_swap.
+  - eapply perm_trans; eassumption.
+Qed.
+
+Lemma fold_and_Forall {A} (Q : A -> Prop) l : fold_right (fun c P => Q c /\ P) True l <-> Forall Q l.
+Proof.
+  induction l as [|a l IH]; cbn; [split; [constructor|trivial]|].
+  rewrite IH. split; [intros []; now constructor|intros H; inversion H; tauto].
+Qed.
+
+(* ====================================================================== trees with a layout *)
+Section atree_induction.
+  Variable P : atree -> Prop.
+  Hypothesis H : forall i k p cs, Forall P cs -> P (AT i k p cs).
+  Fixpoint atree_ind' (a : atree) : P a :=
+    match a with
+    | AT i k p cs =>
+        H i k p cs ((fix go (l : list atree) : Forall P l :=
+                       match l with [] => Forall_nil _ | c :: r => Forall_cons _ (atree_ind' c) (go r) end) cs)
+    end.
+End atree_induction.
+
+Inductive inside : atree -> atree -> Prop :=
+| ins_self a : inside a a
+| ins_kid n c a : In c (at_kids a) -> inside n c -> inside n a.
+
+Definition insideF (n : atree) (G : list atree) : Prop := exists a, In a G /\ inside n a.
+
+Fixpoint aids (a : atree) : list ident := at_id a :: flat_map aids (at_kids a).
+
+Lemma ids_flat p a : map l_id (flat p a) = aids a.
+Proof.
+  revert p. induction a as [i k pl cs IH] using atree_ind'. intros p. cbn [flat aids at_id at_kids map]. f_equal.
+  induction IH as [|c cs Hc _ IHcs]; [reflexivity|]. cbn [flat_map]. now rewrite map_app, Hc, IHcs.
+Qed.
+
+Lemma ids_flat_forest p G : map l_id (flat_forest p G) = flat_map aids G.
+Proof.
+  unfold flat_forest. induction G as [|a G IH]; [reflexivity|]. cbn [flat_map]. now rewrite map_app, ids_flat, IH.
+Qed.
+
+Lemma inside_id n a : inside n a -> In (at_id n) (aids a).
+Proof.
+  induction 1 as [a|n c a Hc _ IH]; destruct a as [i k pl cs]; cbn [aids at_id at_kids] in *; [now left|].
+  right. apply in_flat_map. eauto.
+Qed.
+
+Lemma depth_le a G : In a G -> (depth a <= forest_depth G)%nat.
+Proof.
+  induction G as [|b G IH]; [contradiction|]. intros [->|Hin]; cbn [forest_depth fold_right]; [lia|].
+  specialize (IH Hin). unfold forest_depth in IH. lia.
+Qed.
+
+Lemma kidsf_app l l' q : kidsf (l ++ l') q = kidsf l q ++ kidsf l' q.
+Proof. apply filter_app. Qed.
+
+Lemma kidsf_top p a l q : kidsf (top p a :: l) q = (if id_eqb p q then [top p a] else []) ++ kidsf l q.
+Proof. unfold kidsf. cbn [filter top l_par]. destruct (id_eqb p q); reflexivity. Qed.
+
+(* entries whose parent is q, in a forest none of whose nodes is q: only the roots can qualify *)
+Lemma kidsf_forest_aux G i q :
+  Forall (fun c => forall p, ~ In q (aids c) -> kidsf (flat p c) q = if id_eqb p q then [top p c] else []) G ->
+  (forall c, In c G -> ~ In q (aids c)) ->
+  kidsf (flat_map (flat i) G) q = if id_eqb i q then map (top i) G else [].
+Proof.
+  induction 1 as [|c G Hc _ IH]; intros Hout; [cbn; now destruct (id_eqb i q)|].
+  cbn [flat_map map]. rewrite kidsf_app, Hc by (apply Hout; now left).
+  rewrite IH by (intros c' Hc'; apply Hout; now right).
+  destruct (id_eqb i q); reflexivity.
+Qed.
+
+Lemma kidsf_outside a : forall p q,
+  ~ In q (aids a) -> kidsf (flat p a) q = if id_eqb p q then [top p a] else [].
+Proof.
+  induction a as [i k pl cs IH] using atree_ind'. intros p q Hq.
+  cbn [flat]. rewrite kidsf_top. cbn [aids at_id at_kids In] in Hq.
+  rewrite (kidsf_forest_aux cs i q).
+  - rewrite (id_eqb_neq i q) by tauto. now rewrite app_nil_r.
+  - eapply Forall_impl; [|exact IH]. intros c Hc p0. apply Hc.
+  - intros c Hc Hin. apply Hq. right. apply in_flat_map. eauto.
+Qed.
+
+Lemma kidsf_forest_outside G i q :
+  (forall c, In c G -> ~ In q (aids c)) ->
+  kidsf (flat_map (flat i) G) q = if id_eqb i q then map (top i) G else [].
+Proof.
+  intros H. apply kidsf_forest_aux; [|exact H].
+  apply Forall_forall. intros c _ p. apply kidsf_outside.
+Qed.
+
+(* with pairwise different identities, the entries whose parent is node n are exactly n's children *)
+Lemma kids_of_inside n a :
+  inside n a -> NoDup (aids a) ->
+  kidsf (flat_forest (at_id a) (at_kids a)) (at_id n) = map (top (at_id n)) (at_kids n).
+Proof.
+  induction 1 as [a|n c a Hc Hin IH]; intros Hnd; destruct a as [i k pl cs]; cbn [at_id at_kids aids] in *.
+  - unfold flat_forest. rewrite kidsf_forest_outside, id_eqb_refl; [reflexivity|].
+    intros c Hc Hi. inversion Hnd as [|? ? Hni _]; subst. apply Hni, in_flat_map. eauto.
+  - inversion Hnd as [|? ? Hni Hnd']; subst.
+    destruct (in_split _ _ Hc) as (c1 & c2 & ->).
+    pose proof (inside_id _ _ Hin) as Hq.
+    rewrite flat_map_app in Hnd', Hni. cbn [flat_map] in Hnd', Hni.
+    assert (Hneq : i <> at_id n).
+    { intros ->. apply Hni, in_or_app. right. apply in_or_app. now left. }
+    unfold flat_forest. rewrite flat_map_app. cbn [flat_map]. rewrite !kidsf_app.
+    assert (H1 : forall c', In c' c1 -> ~ In (at_id n) (aids c')).
+    { intros c' Hc' Hin'.
+      apply (NoDup_app_disjoint _ _ (at_id n) Hnd'); [apply in_flat_map; eauto|apply in_or_app; now left]. }
+    assert (H2 : forall c', In c' c2 -> ~ In (at_id n) (aids c')).
+    { intros c' Hc' Hin'. apply NoDup_app_r in Hnd'.
+      apply (NoDup_app_disjoint _ _ (at_id n) Hnd' Hq). apply in_flat_map. eauto. }
+    rewrite (kidsf_forest_outside c1 i _ H1), (kidsf_forest_outside c2 i _ H2), (id_eqb_neq i (at_id n) Hneq).
+    destruct c as [ci ck cpl ccs]. cbn [flat]. rewrite kidsf_top, (id_eqb_neq i (at_id n) Hneq).
+    cbn [app]. rewrite app_nil_r. apply IH.
+    apply NoDup_app_r in Hnd'. now apply NoDup_app_l in Hnd'.
+Qed.
